@@ -255,3 +255,52 @@ theorem c16_legacy_key_small_panics (C : Crypto) (hm : ∀ m, (C.md5 m).length =
   openssl_small_panics C hm ov N pw hN hlen
 
 end Octo.DispatchGen
+
+/-! ### the client's `main`: which listener under which guard -/
+
+namespace Octo.DispatchGen
+
+/-- README "mode", client: the options are "tcp" (default), "udp", "tcp_and_udp" -/
+def readmeClientModes : List Mode := [.Tcp, .Udp, .TcpAndUdp]
+
+/-- **the TOP-LEVEL mode decides, and nothing else**: whatever the `mode` key of the selected `servers[]` entry says, the
+client opens a local TCP listener iff the top-level mode enables tcp and a local UDP socket iff it enables udp, and no
+other socket -/
+theorem c16_client_listeners :
+    Mode.all.all (fun top => Mode.all.all fun entry =>
+      (clientRun top entry).opens .tcp == enableTcp top && (clientRun top entry).opens .udp == enableUdp top &&
+      !(clientRun top entry).opens .quic && !(clientRun top entry).opens .quicIfSection) = true := by decide
+
+/-- every guard of `main` reads `config.mode` of the object `config::init()` returned (the documented top-level mode), none
+the selected entry's -/
+theorem c16_client_guards_read_top_level :
+    clientMain.flatMap MainStep.atoms = [(.topLevel, "config.mode", .udp), (.topLevel, "config.mode", .tcp)] := by decide
+
+/-- on the TCP listener runs `transfer_tcp` (awaited by `main` itself), on the UDP socket `transfer_udp` (spawned), each
+given the socket bound under the same guard and the selected entry -/
+theorem c16_client_services :
+    Mode.all.all (fun top => Mode.all.all fun entry =>
+      ((clientRun top entry).serviceOn .tcp).map (fun s => (s.fn, s.spawned, s.awaited, s.args.length)) ==
+        (if enableTcp top then [("transfer_tcp", false, true, 2)] else []) &&
+      ((clientRun top entry).serviceOn .udp).map (fun s => (s.fn, s.spawned, s.awaited, s.args.length, s.task.isSome)) ==
+        (if enableUdp top then [("transfer_udp", true, false, 2, true)] else []) &&
+      (clientRun top entry).services.length == ((clientRun top entry).serviceOn .tcp).length + ((clientRun top entry).serviceOn .udp).length) = true := by
+  decide
+
+/-- **a udp-only client stays alive**: when the top-level mode enables udp and not tcp, `main` awaits the task `transfer_udp`
+was spawned into; with tcp it awaits `transfer_tcp` itself; under every documented client mode it waits for a service -/
+theorem c16_client_stays_alive :
+    Mode.all.all (fun top => Mode.all.all fun entry =>
+      (clientRun top entry).waitsFor ==
+        (if enableTcp top then ["transfer_tcp"] else if enableUdp top then ["transfer_udp"] else [])) = true
+    ∧ readmeClientModes.all (fun top => Mode.all.all fun entry => (clientRun top entry).waitsFor != []) = true := by decide
+
+/-- outside the documented client modes: a top-level `quic` opens nothing and `main` returns at once -/
+theorem c16_client_quic_mode_opens_nothing (entry : Mode) :
+    (clientRun .Quic entry).binds = [] ∧ (clientRun .Quic entry).waitsFor = [] := by cases entry <;> decide
+
+/-- the server has no mode guard in `main` / `startup`; the Shadowsocks guards read the mode of the ENTRY they start -/
+theorem c16_server_guards :
+    serverMainGuards = [] ∧ ssGuards.all (fun g => g.1 == .entry && g.2.1 == "config.mode") = true := by decide
+
+end Octo.DispatchGen
